@@ -56,3 +56,17 @@ func vSignToken(cfg *JwtConfig, aud, iss, alg int, sigOK, fresh bool) string {
 	}
 	return s
 }
+
+// vSignShortLived builds a correctly signed, fully valid token that expires
+// after ttl (native replay of VerifC16Replay only).
+func vSignShortLived(cfg *JwtConfig, ttl time.Duration) string {
+	key, _ := rsa.GenerateKey(rand.Reader, 2048)
+	cfg.NodePublicKey = &key.PublicKey
+	claims := security.CustomClaims{Roles: []string{"client"}}
+	claims.Subject = "client-1"
+	claims.Audience = jwt.ClaimStrings{"node:n1"}
+	claims.Issuer = "node:n1"
+	claims.ExpiresAt = jwt.NewNumericDate(time.Now().Add(ttl))
+	s, _ := jwt.NewWithClaims(jwt.SigningMethodRS256, claims).SignedString(key)
+	return s
+}
